@@ -54,6 +54,22 @@ class Budget(Exception):
     pass
 
 
+class RuntimeErr(Exception):
+    """A statement raised an SQF runtime error (error-level diagnostic)."""
+
+
+ERR_CODE = {
+    "type": '1 + "a"',
+    "index": "[1] select 5",
+    "count-behaviour": "{5} count [1]",
+    "findif-behaviour": "[1] findIf {5}",
+    "select-behaviour": "[1] select {5}",
+    "while-cond": "while {1} do {}",
+    "compile": 'call compile "1 +"',
+    "assert": "assert false",
+}
+
+
 # ---------------------------------------------------------------- rendering
 def lit(v):
     if v is None:
@@ -175,6 +191,12 @@ def render_stmt(s):
         return "%s || %s" % (rexpr(s[1]), blk_tail(s[2], s[3]))
     if k == "arr":
         return "[" + ", ".join(rexpr(x) for x in s[1]) + "]"
+    if k == "err":
+        return "\n" + ERR_CODE[s[1]] + "\n"
+    if k == "except":
+        return "%s except__ %s" % (blk(s[1]), blk(s[2]))
+    if k == "excnil":
+        return 'diag_log str [%d, isNil "_exception"]' % s[1]
     if k == "assign":
         return "%s = %s" % (s[1], rexpr(s[2]))
     if k == "passign":
@@ -406,6 +428,16 @@ class Interp:
             return r
         if k == "arr":
             return [self.expr(x, env) for x in s[1]]
+        if k == "err":
+            raise RuntimeErr(s[1])
+        if k == "except":
+            try:
+                return self.run_block(s[1], env)[0]
+            except RuntimeErr as x:
+                return self.run_block(s[2], env, bind={"_exception": "<error>"})[0]
+        if k == "excnil":
+            self.trace.append([s[1], env.get("_exception") is None])
+            return None
         if k in ("assign", "passign"):
             v = self.expr(s[2], env)
             name = s[1]
@@ -443,6 +475,8 @@ class Interp:
             return self.trace, None, "error:breakout-target"
         except ScriptError as x:
             return self.trace, None, "error:%s" % x
+        except RuntimeErr as x:
+            return self.trace, None, "runtime-error"
 
 
 # ---------------------------------------------------------------- SQF value text -> Python
